@@ -466,15 +466,34 @@ func (e *refEnv) call(n *node, a []val) (val, bool) {
 		if !ok {
 			return bad, false
 		}
+		// The legacy function is words[start-1 : stop-1] with Python slice semantics: a negative start or stop
+		// counts from the end, stop 0 (or no stop) is the end (legacy_tests.json: WORD_SLICE(" abc  def ghi-jkl ", 2, -1)
+		// is "def ghi", (…, -1, 0) is "jkl", (…, 3, 0, true) is "ghi-jkl").
+		n := int64(len(w))
 		start, ok := a[1].intIn(1, 1000)
 		if !ok {
-			return bad, false
+			// from the end: only without a stop (or with stop 0)
+			if start, ok = a[1].intIn(-n, -1); !ok {
+				return bad, false
+			}
+			if len(a) >= 3 {
+				if z, isInt := a[2].intIn(0, 0); !isInt || z != 0 {
+					return bad, false
+				}
+			}
+			return val{t: tT, s: strings.Join(w[len(w)+start:], " ")}, true
 		}
 		stop := len(w) + 1
 		if len(a) >= 3 {
-			st, ok := a[2].intIn(int64(start)+1, 2147483647) // 0 / negative stops behave differently; a stop past the end is the end
+			st, ok := a[2].intIn(int64(start)+1, 2147483647) // a stop past the end is the end
 			if !ok {
-				return bad, false
+				if st, ok = a[2].intIn(0, 0); ok {
+					st = len(w) + 1 // 0: the end
+				} else if st, ok = a[2].intIn(-n+int64(start), -1); ok {
+					st = len(w) + 1 + st // from the end, and after the start
+				} else {
+					return bad, false
+				}
 			}
 			stop = st
 		}
